@@ -9,7 +9,6 @@
 //! replay.  With pool none the callers are the only threads.
 
 use crate::engine::{Check, Outcome, Plan, Tier, Verdict};
-use crate::util::*;
 use jxl_oxide::{AllocTracker, JxlImage, JxlThreadPool};
 use jxl_render::verif::{set_sched_hooks, SchedHooks};
 use jxlref::gen::stream::*;
@@ -311,7 +310,18 @@ impl Check for C20 {
 
         let _one = SCENARIO.lock().unwrap_or_else(|e| e.into_inner());
         let tracker = AllocTracker::with_limit(1 << 30);
-        let image = match open_img(tracker.clone()) {
+        // a third of the scenarios load the image progressively with one loading render on the way, so that the
+        // handles of the frames loaded then start from a progressive render cache
+        let tail = src.tail_fork_bytes(12);
+        let progressive = tail[8] % 3 == 0 && bytes.len() > header_len + 2;
+        let image = if progressive {
+            let cut = header_len + 1 + ((tail[9] as usize | (tail[10] as usize) << 8) * (bytes.len() - header_len - 1) >> 16);
+            classes.push("loaded-with-loading-render".into());
+            crate::util::open_with_loading_render(&bytes, cut, JxlImage::builder().pool(JxlThreadPool::none()).alloc_tracker(tracker.clone()), || (), || ()).map_err(|_| ())
+        } else {
+            open_img(tracker.clone()).map_err(|_| ())
+        };
+        let image = match image {
             Ok(i) => i,
             Err(_) => {
                 o.classes = classes;
